@@ -57,6 +57,24 @@ def phase2BeforeFix (retries : Nat) (cancelAt : Option Nat) : Nat → List Reply
         let r := phase2BeforeFix retries cancelAt (i + 1) rest
         (r.1 + 1, r.2)
 
+/-- the wire form of a coordinator's answer to GlobalCommit: result code and global status (0 … 15) -/
+inductive RC | failed | success
+  deriving Repr, DecidableEq
+
+/-- Rollbacking, RollbackRetrying, TimeoutRollbacking, TimeoutRollbackRetrying, Rollbacked, RollbackFailed,
+    TimeoutRollbacked, TimeoutRollbackFailed -/
+def rollbackFamily (st : Nat) : Bool := st ∈ [4, 5, 6, 7, 11, 12, 13, 14]
+/-- Committing, CommitRetrying, AsyncCommitting, Committed -/
+def commitFamily (st : Nat) : Bool := st ∈ [2, 3, 8, 9]
+
+/-- `commitRefusal resp == nil` -/
+def acknowledged (rc : RC) (st : Nat) : Bool :=
+  if rollbackFamily st then false
+  else if commitFamily st then true
+  else rc == .success
+
+def replyOf (rc : RC) (st : Nat) : Reply := if acknowledged rc st then .ok else .failed
+
 def decision (cb : Outcome) : Req := if cb = .ok then .commit else .rollback
 
 /-- WithGlobalTx for a launcher, as the code stands at HEAD (after the `fix:` commits).
